@@ -288,6 +288,65 @@ func runCtxFields(p *core.Prog) *core.Result {
 		}
 	}
 
+	// (3b) a slot that suspend only fills conditionally must start out empty at every call:
+	// otherwise a suspension with nothing to save keeps the previous suspension's records
+	for _, n := range en {
+		key := "execCtx." + n + ":suspend-total"
+		total := false
+		for _, s := range fieldStores(suspend) {
+			if s.base != ectxT || s.field.Name() != n {
+				continue
+			}
+			all := true
+			for _, b := range suspend.Blocks {
+				if r, ok := b.Instrs[len(b.Instrs)-1].(*ssa.Return); ok && !core.InstrDominates(s.in, r) {
+					all = false
+				}
+			}
+			if all {
+				total = true
+			}
+		}
+		if total {
+			res.OK(key, p.Pos(suspend.Pos()), "stored on every path through suspend")
+			continue
+		}
+		// every caller resets the whole execCtx first
+		nCalls, okCalls := 0, 0
+		for _, f := range p.Funcs {
+			for _, c := range core.CallsIn(f, suspend) {
+				nCalls++
+				args := c.Common().Args
+				if len(args) < 2 {
+					continue
+				}
+				afa, isFA := args[1].(*ssa.FieldAddr)
+				core.AllInstrs(f, func(in ssa.Instruction) {
+					st, ok := in.(*ssa.Store)
+					if !ok || !core.InstrDominates(st, c) {
+						return
+					}
+					zero, isConst := st.Val.(*ssa.Const)
+					if !isConst || zero.Value != nil || core.NamedOf(zero.Type()) != ectxT {
+						return
+					}
+					if isFA {
+						if sfa, ok := st.Addr.(*ssa.FieldAddr); ok && core.FieldOf(sfa) == core.FieldOf(afa) && core.Origin(sfa.X) == core.Origin(afa.X) {
+							okCalls++
+						}
+					} else if st.Addr == args[1] {
+						okCalls++
+					}
+				})
+			}
+		}
+		if nCalls > 0 && okCalls >= nCalls {
+			res.OK(key, p.Pos(suspend.Pos()), fmt.Sprintf("filled only when non-empty, but all %d callers reset the execCtx to its zero value before suspending", nCalls))
+		} else {
+			res.Bad(key, p.Pos(suspend.Pos()), "suspend stores execCtx."+n+" only when there is something to save, and not every caller clears the execCtx first: a suspension with no live "+n+" entries keeps the records saved by an earlier suspension, which resume() then re-installs (a finished try block catches again / finally runs twice)")
+		}
+	}
+
 	// (4) tryFrame offsets: fields initialised from len(...)/vm.sp are positions; suspend makes them
 	// relative (-=), resume must make exactly those absolute again (+=) and re-base the rest.
 	positional := map[string]bool{}
